@@ -178,6 +178,24 @@ def read_seq(r, genome):
             out.append(s)
         elif op == 5:
             pass
+    # explicit sequence of the first / last aligned segment (an aligned polyT head or polyA tail: the read says T's
+    # or A's whatever the genome has there)
+    if r.get("b0seq") or r.get("bNseq"):
+        idx = [i for i, (op, ln) in enumerate(cg) if op in (0, 7, 8)]
+        parts = []
+        k = 0
+        for i, (op, ln) in enumerate(cg):
+            if op in (0, 1, 4, 7, 8):
+                parts.append([i, out[k]])
+                k += 1
+        for i_, piece in parts:
+            if r.get("b0seq") and i_ == idx[0]:
+                piece_new = (r["b0seq"] * (len(piece) // len(r["b0seq"]) + 1))[:len(piece)]
+                parts[[x[0] for x in parts].index(i_)][1] = piece_new
+            if r.get("bNseq") and i_ == idx[-1]:
+                piece_new = (r["bNseq"] * (len(piece) // len(r["bNseq"]) + 1))[:len(piece)]
+                parts[[x[0] for x in parts].index(i_)][1] = piece_new
+        out = [x[1] for x in parts]
     seq = "".join(out)
     mm = r.get("mm")
     if mm:
